@@ -6,7 +6,7 @@
    to /repo after the fixes F4-F9, F16. *)
 From Verif Require Import lib.Base lib.Str lib.Utf8 gen.Gen.
 From Verif Require Import model.Stream model.Body model.MultipartRef model.Multipart model.Fields model.BodyPipeline.
-From Verif Require Import proofs.C12_pipeline proofs.C12_terminates proofs.C12_markup.
+From Verif Require Import proofs.C12_pipeline proofs.C12_terminates proofs.C12_markup proofs.C12_delivered proofs.C12_wf.
 
 (* The regular expression re-implemented by BodyPipeline.boundary_match is the
    one in /repo today; the error map sends the three request-error classes to 4xx. *)
@@ -63,21 +63,46 @@ Theorem C12_markup_shape :
 Proof. intros B chunks. split; [apply markup_chunks_alternates | apply markup_chunks_starts_nonneg]. Qed.
 Print Assumptions C12_markup_shape.
 
-(* FULL STATEMENT, NOT YET PROVED:
-   Theorem C12_delivered_fields_complete :
-     forall jk cfg ctype fr s a d,
-       process jk cfg ctype fr s a = Ok (VMultipart d) ->
-       exists B parts, read_parts cfg fr s = RDone parts /\
-         forall it, item_in d it ->
-           match it with
-           | IText (Some v) => exists ds de, In (Data, ds, de) (fst (markup_chunks B parts)) /\
-                                 (de - ds = 0 /\ v = [] \/ utf8_dec (read_at (concat parts) ds (de - ds)) = Some v)
-           | IText None => True
-           | IFile _ _ _ w => In (Data, fst w, snd w) (fst (markup_chunks B parts))
-           end.
-   (every delivered field is the complete content of a data section that the
-    parser closed with a delimiter; C06 relates those sections to the delimiters
-    of the body) *)
+(* DELIVERED FIELDS ARE COMPLETE.  Whenever forms / files / POST succeed on a
+   multipart body — ANY bytes, any framing, any chunking — every item of the three
+   dictionaries is the complete content of a data section [ds, de) that the
+   streaming parser reported after the preamble: an upload's window is exactly
+   (ds, de), a text value is the UTF-8 decoding of exactly body[ds:de].
+   (IText None: an upload with an empty file name, finding F10 — nothing delivered.) *)
+Theorem C12_delivered_fields_complete :
+  forall jk cfg ctype fr s a d,
+    process jk cfg ctype fr s a = Ok (VMultipart d) ->
+    exists b B parts,
+      boundary_match ctype = Some b /\ utf8_encode b = Some B /\ read_parts cfg fr s = RDone parts /\
+      forall it, In it (all_items d) ->
+                 delivered_ok (concat parts) (fst (markup_chunks B parts)) it.
+Proof. exact delivered_fields_complete. Qed.
+Print Assumptions C12_delivered_fields_complete.
+
+(* ... and such a data section is closed by a delimiter: in the one-piece scanner
+   every data section after the preamble ends exactly where CRLF--B starts, *)
+Theorem C12_data_sections_closed :
+  forall B body k ds de,
+    In (k, ds, de) (tl (fst (ref B body))) -> k = Data ->
+    exists q, de = Z.of_nat q /\ prefixb (token B) (skipn q body) = true.
+Proof. exact ref_data_closed. Qed.
+Print Assumptions C12_data_sections_closed.
+
+(* and (C06: stream_eq_ref) on every prefix of a well-formed body, however it is
+   cut into chunks, the streaming parser reports exactly those sections: a
+   TRUNCATED well-formed body never yields a truncated field. *)
+Theorem C12_truncated_never_delivered :
+  forall B parts it,
+    wf_prefix B (concat parts) ->
+    delivered_ok (concat parts) (fst (markup_chunks B parts)) it ->
+    closed_item B (concat parts) it.
+Proof. exact delivered_closed_wf. Qed.
+Print Assumptions C12_truncated_never_delivered.
+
+(* NOT PROVED for bodies outside wf_prefix (garbage between parts, CR LF LF in a
+   header block ...): that the data sections of the STREAMING parser end at a
+   delimiter; there the claim rests on the correspondence check and the oracle
+   (tools/props/C12.py: delivered fields vs. delimiter positions). *)
 
 (* non-vacuity: a body with a header line without colon is a client error, a
    well-formed one is delivered *)
